@@ -246,3 +246,125 @@ func c08JanitorChild(ctx *runCtx, spec string) {
 		dropViolations(ctx)
 	}
 }
+
+// c08LeaseRaceChild: the holder's Lease calls race with its own Unlock while a waiter is queued.
+// A Lease that verified the holder's token must not take effect on the lock the WAITER acquires
+// afterwards: the waiter's lock has no timeout, so it must still be held (no competitor acquires it,
+// its own Unlock succeeds) long after the lease duration.
+func c08LeaseRaceChild(ctx *runCtx, spec string) {
+	var n, r, workers, rounds int
+	var seed int64
+	fmt.Sscanf(spec, "leaserace N=%d R=%d workers=%d rounds=%d seed=%d", &n, &r, &workers, &rounds, &seed)
+	c, err := cluster.Start(cluster.Config{Replicas: r, Partitions: 7, TableSize: 1 << 20}, n)
+	if err != nil {
+		ctx.rep.Inconclusive("cluster start: " + err.Error())
+		return
+	}
+	defer c.Shutdown()
+	fp := c.Fingerprint()
+	kinds := []string{"EO", "EN", "CC", "RO", "RN"}
+	if n == 1 {
+		kinds = []string{"EO", "CC", "RO"}
+	}
+	const leaseD = 120 * time.Millisecond
+	bg := context.Background()
+	router := paths.NewRouter(c, fmt.Sprintf("c08lr-%d", seed))
+	defer router.Close()
+	var stop int32
+	var wg sync.WaitGroup
+	for w := 0; w < workers; w++ {
+		wg.Add(1)
+		go func(w int) {
+			defer wg.Done()
+			rng := rand.New(rand.NewSource(seed*1000 + int64(w)))
+			sessA, sessB := router.NewSession(), router.NewSession()
+			defer sessA.Close()
+			defer sessB.Close()
+			var leaseSess []*paths.Session
+			for i := 0; i < 3; i++ {
+				s := router.NewSession()
+				defer s.Close()
+				leaseSess = append(leaseSess, s)
+			}
+			for round := 0; round < rounds && atomic.LoadInt32(&stop) == 0; round++ {
+				key := fmt.Sprintf("lr-%d-%d", w, round)
+				hk, wk, ck := kinds[(w+round)%len(kinds)], kinds[(w+round/2+1)%len(kinds)], kinds[(w+round/3+2)%len(kinds)]
+				la, err := sessA.Via(hk).Lock(bg, key, 0, 2*time.Second)
+				if err != nil {
+					ctx.rep.Inconclusive(fmt.Sprintf("leaserace %s: holder lock: %v", key, err))
+					return
+				}
+				type res struct {
+					l   paths.Lock
+					err error
+				}
+				got := make(chan res, 1)
+				go func() {
+					l, err := sessB.Via(wk).Lock(bg, key, 0, 10*time.Second)
+					got <- res{l, err}
+				}()
+				var lstop int32
+				var lwg sync.WaitGroup
+				var leasesOK int64
+				for i, s := range leaseSess {
+					lwg.Add(1)
+					go func(i int, s *paths.Session) {
+						defer lwg.Done()
+						cl := s.Via(kinds[(w+i)%len(kinds)])
+						for atomic.LoadInt32(&lstop) == 0 {
+							if err := cl.LeaseToken(bg, key, la.Token(), leaseD); err == nil {
+								atomic.AddInt64(&leasesOK, 1)
+							} else {
+								time.Sleep(200 * time.Microsecond)
+							}
+						}
+					}(i, s)
+				}
+				time.Sleep(time.Duration(rng.Intn(3000)) * time.Microsecond)
+				_ = la.Unlock(bg) // may legitimately fail if the leased lock ran out first
+				rb := <-got
+				// keep leasing with the OLD token a little longer: none of these may touch the waiter's lock
+				time.Sleep(5 * time.Millisecond)
+				atomic.StoreInt32(&lstop, 1)
+				lwg.Wait()
+				if rb.err != nil {
+					ctx.rep.Inconclusive(fmt.Sprintf("leaserace %s: waiter: %v", key, rb.err))
+					continue
+				}
+				ctx.rep.Eval(1)
+				ctx.rep.Count("leaserace_rounds", 1)
+				ctx.rep.Count("leaserace_leases_acknowledged_with_holder_token", atomic.LoadInt64(&leasesOK))
+				ctx.rep.Distinct(fmt.Sprintf("leaserace|N=%d|R=%d|holder=%s|waiter=%s", n, r, hk, wk))
+				time.Sleep(leaseD + 150*time.Millisecond)
+				bad := false
+				if lk, err := sessA.Via(ck).Lock(bg, key, 0, time.Millisecond); err == nil {
+					ctx.rep.Violate("c08|acquired-while-held|untimed|after-lease-with-previous-token",
+						fmt.Sprintf("%s key %s: holder A (via %s) leased with its token while unlocking; waiter B (via %s) then acquired the lock WITHOUT timeout and has not unlocked, yet %v later a competitor via %s acquired it too", spec, key, hk, wk, leaseD+150*time.Millisecond, ck),
+						map[string]interface{}{"batch": spec, "key": key})
+					_ = lk.Unlock(bg)
+					bad = true
+				} else if paths.Class(err) != "lock not acquired" {
+					ctx.rep.Inconclusive(fmt.Sprintf("leaserace %s: competitor: %v", key, err))
+				}
+				if err := rb.l.Unlock(bg); err != nil && !bad {
+					if paths.Class(err) == "no such lock" {
+						ctx.rep.Violate("c08|unlock-failed|own-token|after-lease-with-previous-token",
+							fmt.Sprintf("%s key %s: waiter B (via %s) acquired the lock without timeout after holder A's Unlock raced with A's Lease calls; B's own Unlock fails: %v", spec, key, wk, err),
+							map[string]interface{}{"batch": spec, "key": key})
+						bad = true
+					} else {
+						ctx.rep.Inconclusive(fmt.Sprintf("leaserace %s: waiter unlock: %v", key, err))
+					}
+				}
+				if bad {
+					atomic.StoreInt32(&stop, 1)
+					return
+				}
+			}
+		}(w)
+	}
+	wg.Wait()
+	if c.Fingerprint() != fp {
+		dropViolations(ctx)
+	}
+}
